@@ -151,7 +151,8 @@ class Env:
 
 
 def gen_request(r):
-    method = r.choice(["GET"] * 12 + ["POST"] * 4 + ["OPTIONS", "PUT", "DELETE", "HEAD"])
+    method = r.choice(["GET"] * 12 + ["POST"] * 4 + ["OPTIONS", "PUT", "DELETE", "HEAD", "PATCH", "get", "Post", "GETX", "XPOST", "ET", "GE", "POS", "OST", "T", "OPTION",
+                       "PTIONS", "O", "", ", ", "GET, POST", "GET ", " POST", "TRACE", "CONNECT"])      # any method token a WSGI caller may hand in
     k = r.random()
     obj = r.choice(OBJ_NAMES + ["http.calc"] * 8 + ["http.calc2", "http.other", "http.cal", "http.calcx", "HTTP.CALC", "ttp.calc", "nosuch.obj", "http.nosuch"])
     member = r.choice(["add", "record", "record", "fail", "fire", "nothing", "status", "$meta", "nosuch", "_private", "__class__", "drop"])
